@@ -58,7 +58,8 @@ def preload():
 
 def quick_sample(entries, seed, per_stratum=3, frac=8):
     """Quick tier: all construct cases, and of the call-only cases a seeded 1/frac sample that still
-    hits every stratum (context kind, callee kind, argument mix, position, spec verdict)."""
+    hits every stratum (context kind, callee kind, argument mix, position, spec verdict, own/outer scope
+    of the violated requirement, dagger in context)."""
     rnd = random.Random(seed)
     strata = collections.OrderedDict()
     keep = []
@@ -67,7 +68,8 @@ def quick_sample(entries, seed, per_stratum=3, frac=8):
         if c["con"] != "none":
             keep.append(i)
             continue
-        k = (c["ctx"]["kind"], c["call"]["kind"], c["call"]["args"], c["call"]["pos"], e["expect"])
+        k = (c["ctx"]["kind"], c["call"]["kind"], c["call"]["args"], c["call"]["pos"], e["expect"],
+             e["scope"] if e["expect"] == "reject" else "", "D" in e["flags"])
         strata.setdefault(k, []).append(i)
     for k, idx in strata.items():
         rnd.shuffle(idx)
